@@ -1,6 +1,7 @@
 package harness
 
 import (
+	"sync"
 	"fmt"
 	"sort"
 	"strings"
@@ -151,10 +152,19 @@ func histString(h []kvOp) string {
 // recorder collects a history inside a scenario.
 type recorder struct {
 	Ops []kvOp
+	mu  sync.Mutex // free-running race pass only: client goroutines append concurrently there
 }
 
 func (r *recorder) do(client int, kind, key, val string, f func(o *kvOp)) {
 	o := kvOp{Client: client, Kind: kind, Key: key, Val: val}
+	if !vsched.Installed() {
+		// free-running race pass: no history is evaluated, only the calls matter
+		f(&o)
+		r.mu.Lock()
+		r.Ops = append(r.Ops, o)
+		r.mu.Unlock()
+		return
+	}
 	o.Call = vsched.MarkCall()
 	f(&o)
 	o.Ret = vsched.MarkRet()
